@@ -30,6 +30,7 @@ PROP = {
         "T1 < T2: after a bad or unexpected arrival in the receive procedure the NAK (sent after at most T1 of silence) precedes the peer's T2 expiry",
         "fault model = what E4 detects: handshake characters are delivered, dropped or replaced by a NON-control character; a block transmission arrives intact, not at all, or in a form the receive procedure rejects (one replaced character of header/body/checksum, truncation, a longer or invalid length). A character replaced BY a control character (C18_nak_to_ack_refuted) and a shortened length whose prefix happens to sum up (C17_short_length_undetected) are excluded",
         "retries exhausted => terminal state Down; link re-establishment and the idle loop / runSend of transport.lineEngine are covered by the e2e run only",
+        "C18_receiver_is_C17_assembler carries as premises: the token-to-header encoding yields well-formed headers addressed to the receiver and is injective (distinct system bytes per message); block index + 1 <= 32767",
         "blocks are abstract (token, index, last); the receiver's assembler is the abstract image of the C17 assembler on in-sequence blocks addressed to us, without T4 (C17 covers addressing, T4 and byte-level reassembly); consecutive messages of one direction carry distinct tokens (distinct system bytes)",
     ],
 }
